@@ -17,6 +17,7 @@ import (
 	"context"
 	"encoding/json"
 	"fmt"
+	"math"
 	"time"
 
 	eth2client "github.com/attestantio/go-eth2-client"
@@ -130,7 +131,7 @@ func (s *Service) AttestationData(ctx context.Context,
 	log.Trace().
 		Dur("elapsed", time.Since(started)).
 		Stringer("attestation_data", &bestAttestationData).
-		Int64("head_distance", util.SlotToInt64(bestAttestationData.Slot)-util.SlotToInt64(slot)).
+		Int64("head_distance", headDistance(bestAttestationData.Slot, slot)).
 		Int("count", bestAttestationDataCount).
 		Msg("Selected majority attestation data")
 	for _, provider := range attestationDataProviders[bestAttestationDataRoot] {
@@ -366,4 +367,19 @@ func (s *Service) attestationDataLoop2(ctx context.Context,
 		Int("responded", responded).
 		Int("errored", errored).
 		Msg("Results")
+}
+
+// headDistance returns the distance from the head slot to the slot of the attestation data.
+// The head slot is whatever the beacon node told us about the block (block events, headers) and
+// is not validated, so this must not use a conversion that panics on out-of-range values.
+func headDistance(dataSlot phase0.Slot, headSlot phase0.Slot) int64 {
+	if headSlot <= dataSlot {
+		return util.SlotToInt64(dataSlot - headSlot)
+	}
+	diff := headSlot - dataSlot
+	if diff > math.MaxInt64 {
+		diff = math.MaxInt64
+	}
+
+	return -util.SlotToInt64(diff)
 }
